@@ -140,6 +140,7 @@ void Ctx::violate(const std::string &cls, const std::string &site, const std::st
 
 LibCall::LibCall(Ctx &ctx, const Op *op, int) : c(ctx)
 {
+    armed = op != nullptr;
     g_sim.n_vna = g_sim.n_yaml = 0;
     g_sim.fail_vna = g_sim.fail_yaml = 0;
     g_sim.fail_vna_sticky = false;
@@ -179,6 +180,10 @@ void LibCall::done()
     saved_errno = errno;
     g_sim.in_lib = 0;
     finished = true;
+    if (armed && c.cur_op >= 0) {
+	if ((long)c.main_allocs.size() <= c.cur_op) c.main_allocs.resize((size_t)c.cur_op + 1, 0);
+	c.main_allocs[(size_t)c.cur_op] += g_sim.n_vna;
+    }
     if (g_sim.fired_vna) c.count("fault.alloc.vna.fired", g_sim.fired_vna);
     if (g_sim.fired_yaml) { c.count("fault.alloc.yaml.fired", g_sim.fired_yaml); c.count("ledger.yaml_blocks_forgiven", (long)ledger_forgive_yaml(g_sim.op_index)); }
     if (g_sim.fired_read_eio) c.count("fault.read.eio.fired", g_sim.fired_read_eio);
@@ -196,6 +201,17 @@ void LibCall::done()
     }
 }
 LibCall::~LibCall() { done(); }
+
+void fault_failed(Ctx &c, const std::string &, int, bool)
+{
+    c.count("probe.failed_by_fault");
+}
+void fault_recovered(Ctx &c, const std::string &what, int first_err, bool alloc_fault)
+{
+    c.count("probe.reissued_after_fault_ok");
+    if (alloc_fault && c.strict_enomem && first_err != ENOMEM)
+	c.violate("c12", what + ":errno", strf("%s failed only because an allocation failure was injected (it succeeds when re-issued) but reported errno %s instead of ENOMEM", what.c_str(), errno_name(first_err)));
+}
 
 void check_ledger_empty(Ctx &c, const char *when)
 {
